@@ -93,6 +93,8 @@ class Aff:
 
     def __truediv__(self, o):
         if isinstance(o, (int, float, _np.integer, _np.floating)) and any(n in (CTX[0].sizes if CTX[0] else ()) for n in self.t):
+            if CTX[0] is not None and CTX[0].allow_extent_exponents and float(o) == int(o):
+                return ExtExp(self, int(o))
             raise StageEnd("an extent is divided by a number (e.g. l / 2 as an exponent): beyond the generic-element fragment")
         return GVal.lift(self) / o
 
@@ -132,6 +134,30 @@ class Aff:
         return r
 
 
+class ExtExp:
+    """extent / n used as an exponent: base ** (l / n) is an opaque positive atom pow[<base>; l/n] (the same construction on
+    the specification side yields the same atom)"""
+
+    __array_ufunc__ = None
+
+    def __init__(self, aff, den):
+        self.aff, self.den = aff, den
+
+    def generic_power_of(self, base):
+        v = S.expand(S.lift(base))
+        name = "pow[%s;(%r)/%d]" % (alg.fmt(v, 40), self.aff, self.den)
+        return S.Sym.symbol(name, "pos")
+
+    def __rpow__(self, base):
+        if isinstance(base, _np.ndarray):
+            out = _np.empty(base.shape, dtype=object)
+            of, bf = out.reshape(-1), _np.asarray(base, dtype=object).reshape(-1)
+            for i in range(bf.size):
+                of[i] = self.generic_power_of(bf[i])
+            return out.view(S.SymArray) if isinstance(base, S.SymArray) else out
+        return self.generic_power_of(base)
+
+
 class StageEnd(Exception):
     """the real code leaves the fragment the generic-element execution understands; what was recorded up to here is
     verified, the rest of the function is covered by the per-shape contracts only"""
@@ -149,6 +175,7 @@ class Ctx:
         self.obligations = []  # (kind, description, z3-ready data)
         self.atoms = {}
         self.ntab = 0  # tables created so far (each GArray gets an id; its atoms are S<id>[...])
+        self.allow_extent_exponents = False
 
     def atom(self, *a):
         return self.named_atom("S", *a)
@@ -272,6 +299,13 @@ class GVal:
     def __neg__(self):
         return GVal(-self.data, self.sym, self.reads)
 
+    def map(self, f):
+        out = _np.empty(self.data.shape, dtype=object)
+        of, df = out.reshape(-1), self.data.reshape(-1)
+        for i in range(df.size):
+            of[i] = f(S.lift(df[i]))
+        return GVal(out, self.sym, self.reads)
+
 
 def _index(idx, dims, tail_shape):
     """interpret a basic index on an array whose leading axes have symbolic sizes `dims` (Affs) followed by the concrete
@@ -341,9 +375,23 @@ class GArray:
     def shape(self):
         return tuple(self.dims) + self.tail
 
+    def transposed(self, perm):
+        """np.transpose of the table: a second name for the same table with its leading axes in another order"""
+        perm = tuple(int(x) for x in perm)
+        nl = len(self.dims)
+        if sorted(perm[:nl]) != list(range(nl)) or list(perm[nl:]) != list(range(nl, nl + len(self.tail))):
+            raise alg.Undecided("transpose that mixes symbolic and concrete axes")
+        t = object.__new__(GArray)
+        t.dims, t.tail, t.tid = [self.dims[a] for a in perm[:nl]], self.tail, self.tid
+        t.perm = [(self.perm[a] if hasattr(self, "perm") else a) for a in perm[:nl]]
+        return t
+
     def _view(self, idx, reading):
         C = CTX[0]
         points, axes = _index(idx, self.dims, self.tail)
+        if hasattr(self, "perm"):  # indices were given in the transposed order: map the leading axes back
+            points = {self.perm[a]: e for a, e in points.items()}
+            axes = [((axd[0], self.perm[axd[1]]) + tuple(axd[2:])) if axd[0] in ("sym", "one") else axd for axd in axes]
         n = len(axes)
         shape = []
         cons = _cons_now(C)
@@ -370,6 +418,8 @@ class GArray:
             else:
                 shape.append(1)
         eidx = tuple(elem[a] for a in range(len(self.dims)))
+        if hasattr(self, "perm"):
+            bounds = [(e, D) for (a_, e), D in zip(sorted(points.items()), [self.dims[self.perm.index(a_)] for a_, _e in sorted(points.items())])]
         tail_axes = [pos for pos, axd in enumerate(axes) if axd[0] == "tail"]
         data = _np.empty(shape, dtype=object)
         for tpos in itertools.product(*[range(t) for t in self.tail]):
@@ -454,6 +504,28 @@ class GIota:
 
     __array_ufunc__ = None
 
+    def _as_val(self):
+        slot = self.ndim - self.axis
+        data = _np.empty([1] * self.ndim, dtype=object)
+        data[...] = (self.offset + Aff.var("p%d" % slot)).to_sym()
+        return GVal(data, {slot: [SymAxis(Aff.of(0), [self.D])]}, [])
+
+    def __mul__(self, o):
+        return self._as_val() * o
+
+    __rmul__ = __mul__
+
+    def __add__(self, o):
+        return self._as_val() + o
+
+    __radd__ = __add__
+
+    def __sub__(self, o):
+        return self._as_val() - o
+
+    def __rsub__(self, o):
+        return o - self._as_val()
+
     def __init__(self, D, axis=0, ndim=1, offset=0):
         self.D, self.axis, self.ndim, self.offset = Aff.of(D), axis, ndim, Aff.of(offset)
 
@@ -509,6 +581,31 @@ class GNp:
             nd = max(i for i, s in enumerate(shape) if isinstance(s, Aff)) + 1
             return GArray(shape[:nd], shape[nd:])
         return self._p.zeros(shape, *a, **k)
+
+    def tensordot(self, a, b, axes=2):
+        if isinstance(a, GVal):
+            ax_a, ax_b = axes
+            if a.data.shape[ax_a] == 1 and (a.data.ndim - ax_a) in a.sym:
+                raise alg.Undecided("tensordot over a symbolic-length axis")
+            if _np.ndim(b) != 2 or not isinstance(ax_a, (int, _np.integer)):
+                raise alg.Undecided("tensordot form")
+            # numpy: the contracted axis disappears, the free axis of b is appended at the end - the number of axes is
+            # unchanged, so every symbolic axis keeps its position from the right only if it lies LEFT of the contracted axis
+            if any(a.data.ndim - slot > ax_a for slot in a.sym):
+                raise alg.Undecided("tensordot over an axis left of a symbolic axis")
+            out = _np.tensordot(a.data, _np.asarray(b, dtype=object), (ax_a, ax_b))
+            return GVal(out, a.sym, a.reads)
+        return self._p.tensordot(a, b, axes)
+
+    def sqrt(self, x, *a, **k):
+        if isinstance(x, GVal):
+            return x.map(lambda v: v.sqrt())
+        return self._p.sqrt(x, *a, **k)
+
+    def transpose(self, x, axes=None):
+        if isinstance(x, GArray):
+            return x.transposed(axes)
+        return self._p.transpose(x, axes)
 
     def arange(self, n, *a, **k):
         if isinstance(n, Aff) and not a:
